@@ -892,7 +892,8 @@ class Extractor:
                         rest, rt = self.seq(fi, stmts[idx + 1:], st)
                         if rest:
                             raise AnalysisError(f"treewalk: {fi.key}: traversal both inside and after a value-dependent early exit: if {short(s.test)}")
-                        return acts + b, False
+                        # the branch leaves; without it the rest runs (it holds no traversal): control leaves this list iff the rest does
+                        return acts + b, rt
                     acts += b
                     continue
                 if e:
